@@ -7,7 +7,10 @@ import LunarVerif.Spec.C12Shared
 Case layout (one `cfg` line, then operations):
   cfg cache    t0=<ns> max=<bytes|none>
   cfg caching  t0=<ns> ttl8=<int> maxrec=<bytes> maxb=<bytes> paths=<a,!b|%e>     (TTL = ttl8 × 125 ms; `!` = other payload type)
-  cfg throttle t0=<ns> type=rel|abs|undef statuses=<429,503|%e> hdr=<name>
+  cfg throttle t0=<ns> type=rel|abs|undef statuses=<429,503|%e> hdr=<name> [src=struct|yaml|persisted]
+               (yaml: the configuration goes through config.ReadPoliciesConfig; persisted: additionally through
+                WritePoliciesConfig → ReadPoliciesConfig, the copy a revert reads.  Today's code writes the type as a
+                number and refuses numbers when reading: `err:reload`, nothing is configured)
   cfg shared   t0=<ns> r0=<ttl8>/<maxrec>/<maxb>/<paths> r1=…        (several caching remedies, ONE plugin; ops carry r=<index>)
 cache ops   : set k= v= ttl8=   | get k= | has k= | del k=
 gated ops   : cset id= k= v= ttl8= | cget id= k= | chas id= k=  (the call runs up to its clock read and parks there)
@@ -284,7 +287,13 @@ def runStep (s : Mode) (line : String) : Mode × String :=
   | ["case", id] => (.none, s!"case {id}")
   | "cfg" :: ws =>
     match s, parseCfg ws with
-    | .none, some m => (m, "ok")
+    | .none, some m =>
+      match m, kv ws "src" with
+      | .throttle .., some "persisted" => (s, "err:reload")
+      | .throttle .., some "yaml" => (m, "ok")
+      | .throttle .., some "struct" => (m, "ok")
+      | _, some _ => (s, "bad-op")
+      | _, none => (m, "ok")
     | _, _ => (s, "bad-op")
   | ws =>
     match s with
@@ -393,12 +402,17 @@ def judgeStep (s : JudgeSt) (op out : String) : JudgeSt :=
   let ows := words out
   match words op with
   | "cfg" :: ws =>
+    -- the mode follows the IMPLEMENTATION's answer: a refused configuration configures nothing; an accepted one is
+    -- judged against what the operator declared on the op line
+    if out != "ok" then
+      (if out == "bad-op" || out.startsWith "err:" then s else { s with bad := some ("unparsable-output:" ++ pctEnc out) })
+    else
     match s.mode, parseCfg ws with
     | .none, some (.cache cfg st _) => { s with mode := .cache { cfg := cfg }, now := st.c.now }
     | .none, some (.caching cfg paths c) => { s with mode := .caching cfg paths [], now := c.now }
     | .none, some (.throttle cfg hdr c) => { s with mode := .throttle cfg hdr [], now := c.now }
     | .none, some (.shared rems c) => { s with mode := .shared rems [], now := c.now }
-    | _, _ => if out == "bad-op" then s else { s with bad := some "cfg-accepted-but-unparsable" }
+    | _, _ => { s with bad := some "cfg-accepted-but-unparsable" }
   | ws =>
     let dt : Nat := match parseClock ws with | some c => advanceOf c | none => 0
     match s.mode with
